@@ -2,6 +2,7 @@ package impl
 
 import (
 	"encoding/json"
+	"reflect"
 
 	"github.com/trustbloc/sidetree-go/pkg/api/protocol"
 	"github.com/trustbloc/sidetree-go/pkg/vdr/sidetreelongform/dochandler"
@@ -95,11 +96,20 @@ func transformKind(c *proto.Case) interface{} {
 	if Shared {
 		tr = shared("transformer|"+string(proto.Marshal(c.Body["opts"])), func() interface{} { return didtransformer.New(opts...) }).(*didtransformer.Transformer)
 	}
+	stateBefore := jsonRound(rmJSON(rm))
 	res, err := tr.TransformDocument(rm, info)
 	if err != nil {
 		return M{"class": "err"}
 	}
 	out := M{"class": "ok", "result": resultJSON(res)}
+	// the state handed in is the caller's: it must come back untouched, and transforming it a
+	// second time must give the same result
+	if !reflect.DeepEqual(stateBefore, jsonRound(rmJSON(rm))) {
+		out["input_mutated"] = true
+	}
+	if res2, err2 := tr.TransformDocument(rm, info); err2 != nil || !reflect.DeepEqual(jsonRound(resultJSON(res2)), jsonRound(resultJSON(res))) {
+		out["second_transformation_differs"] = true
+	}
 	// the same transformer used for another document (another DID, keys in the opposite order)
 	// must leave the result it returned earlier alone
 	before, _ := json.Marshal(res)
